@@ -15,7 +15,7 @@ RULE = ("decoders: 12 unmarshall_datain (INQUIRY standard and every VPD page, MO
         "(<= 200 bytes) and all-00 / all-FF / 00..FF-ramp buffers of every length 0..64. Deviations: every byte position x all 256 values "
         "(first 48 bytes; {00,01,7F,80,FF} beyond); every pair of positions among the first 12 bytes (thorough: 24) x {00,01,7F,80,FF}^2; every "
         "truncation length. buffers of 65560 and 70001 bytes (00 / FF, long well-formed lists for GET LBA STATUS, REPORT LUNS, READ KEYS, VPD pages of FFFCh bytes) with header corruptions. Budget: 2000 + 1000 x len(buffer) (300 per byte beyond 4 KiB) traced source lines inside /repo/pyscsi; exceeding it is the violation. "
-        "Facade level: 6 methods x 10 endless device behaviours (UNIT ATTENTION alternating / never twice the same, BUSY, NOT READY, TASK SET FULL, RESERVATION CONFLICT, ACA ACTIVE, CHECK CONDITION without sense, deferred errors, GOOD with ever-changing garbage) x both transports: each call ends within 16 submissions and 400 000 lines. Non-trivial = buffer differs from the well-formed base; distinct = distinct (decoder, buffer).")
+        "Facade level: 6 methods x 10 endless device behaviours (UNIT ATTENTION alternating / never twice the same, BUSY, NOT READY, TASK SET FULL, RESERVATION CONFLICT, ACA ACTIVE, CHECK CONDITION without sense, deferred errors, GOOD with ever-changing garbage) x both transports: each call ends within 16 submissions and 400 000 lines. Retention: every decoder x ~30 answers (well-formed, constant, bad lengths, truncated) decoded 40 times each with the results and errors dropped: none of the input buffers may stay alive. Non-trivial = buffer differs from the well-formed base; distinct = distinct (decoder, buffer).")
 ASSUMPTIONS = [
     "work is measured in executed Python source lines inside the library (sys.settrace); the budget 2000 + 1000 lines per buffer byte is about 5x the worst terminating cost measured (READ ELEMENT STATUS with a hostile descriptor length of 1: ~200 lines per byte); evidence key max_lines_within_budget reports the measured maxima per decoder",
     "returning or raising any ordinary exception within the budget is acceptable; memory is not measured separately (the decoders only slice the buffer they are given)",
@@ -219,6 +219,34 @@ def base_buffers(name):
 NCHUNKS = {"inquiry_vpd": 6, "res": 3, "rtpg": 3, "inquiry_std": 3, "prfull": 3, "discinfo": 2, "reportpriority": 2, "mode6": 2, "mode10": 2}
 
 
+class _Buf(bytearray):
+    """a bytearray that can be weakly referenced"""
+
+
+def run_retention(name, hexbuf):
+    """'nor allocate without bound': the same answer decoded 40 times, every result / error dropped at once - afterwards none of the
+    40 input buffers may still be alive (kept by a cache, by an error object that is re-used, by a growing traceback ...)"""
+    import gc
+    import weakref
+    fn = decoders()[name]
+    buf = bytes.fromhex(hexbuf)
+    refs = []
+    for _ in range(40):
+        b = _Buf(buf)
+        refs.append(weakref.ref(b))
+        try:
+            fn(b)
+        except Exception:   # noqa: BLE001
+            pass
+        del b
+    gc.collect()
+    alive = sum(1 for r in refs if r() is not None)
+    if alive > 1:
+        return [("%s/buffers_retained" % name.split("/")[0], "%s: after 40 decodes of %s%s (results and errors dropped) %d of the 40 input buffers are still alive: "
+                 "memory grows with every answer" % (name, buf[:24].hex(), "..." if len(buf) > 24 else "", alive))]
+    return []
+
+
 HOSTILE = ["ua_alternating", "ua_counting", "busy", "not_ready", "task_set_full", "reservation_conflict", "garbage_good", "cc_nosense", "deferred", "aca"]
 DEV_METHODS = ["testunitready", "inquiry", "readcapacity10", "read10", "modesense6", "reportluns"]
 MAX_SUBMISSIONS = 16
@@ -297,12 +325,15 @@ def partitions(tier):
         k = NCHUNKS.get(n, 2 if n.startswith("readcd") else 1)
         parts += [[n, c, k] for c in range(k)]
     parts += [["device", tr, 0] for tr in ("sgio", "iscsi")]
+    parts += [["retention", 0, 0]]
     return parts
 
 
 def run_case(case, obs=None):
     if case[0] == "device":
         return run_device(*case[1:])
+    if case[0] == "retention":
+        return run_retention(case[1], case[2])
     name, hexbuf = case
     buf = bytes.fromhex(hexbuf)
     fn = decoders()[name]
@@ -325,6 +356,26 @@ def replay(case):
 
 def run_partition(part, tier, seed):
     acc = Acc(seed)
+    if part[0] == "retention":
+        for name in decoders():
+            bases = base_buffers(name)
+            chosen = [b for k, b in bases if k == "wellformed"][:3] + [bytes(24), b"\xff" * 24, bytes(range(24)), bytes([0, 0, 0, 0, 0, 0, 0, 5]) + bytes(16),
+                                                                      bytes([0, 0, 0, 0, 0, 9]) + bytes(18), bytes(8), b"\xff" * 8]
+            for b_ in chosen:
+                for variant in (b_, b_[:len(b_) // 2], b_[:5] + b"\x7f" + b_[6:]):
+                    case = ["retention", name, bytes(variant).hex()]
+                    acc.evaluations += 1
+                    acc.nontrivial.add(hash(tuple(case)))
+                    try:
+                        v = run_case(case)
+                    except Exception:
+                        import traceback
+                        v = [("harness_error", traceback.format_exc()[-600:])]
+                    for k, w in v:
+                        acc.violation(k, w, case)
+                    acc.outcomes.add(hash((name, len(variant), tuple(k for k, _ in v))))
+        acc.samples.append((0, ["retention", "(see rule)"]))
+        return acc
     if part[0] == "device":
         for behaviour in HOSTILE:
             for method in DEV_METHODS:
